@@ -5,6 +5,7 @@ from .class_helper import (get_meta, CLASS_TO_LOAD_FUNC,
                            set_class_loader, create_new_class)
 from .constants import _LOAD_HOOKS
 from .type_def import T, JSONObject
+from ._verif import yp as _yp  # verification hook H2 (no-op by default)
 
 
 def fromdict(cls: type[T], d: JSONObject) -> T:
@@ -26,6 +27,7 @@ def fromdict(cls: type[T], d: JSONObject) -> T:
     try:
         load = CLASS_TO_LOAD_FUNC[cls]
     except KeyError:
+        _yp('load.miss')
         load = _get_load_fn_for_dataclass(cls)
 
     return load(d)
@@ -96,6 +98,7 @@ def get_loader(class_or_instance=None, create=True,
         return cls_to_loader[class_or_instance]
 
     except KeyError:
+        _yp('loader.miss')
 
         if hasattr(class_or_instance, _LOAD_HOOKS):
             return set_class_loader(
